@@ -19,7 +19,7 @@ fixes = subprocess.run(["git", "-C", "/repo", "log", "--format=%h %s", "--grep=^
 TECH = {
     "kani": "bounded model checking of the compiled crux code with Kani 0.68 / CBMC 6.11 (SAT, CaDiCaL): #[kani::proof] harnesses over symbolic inputs, unwinding assertions on, counterexamples replayed natively",
     "mir": "SMT: optimised MIR of the real functions (loop-free kernels) translated to SMT-LIB2 on every run and decided by z3 (cvc5 cross-check), full machine width, counterexamples replayed natively",
-    "mixed": "SMT over MIR translated to SMT-LIB2 (z3, cvc5 cross-check) plus Kani/CBMC bounded model checking cross-checks; counterexamples replayed natively",
+    "mixed": "Kani/CBMC bounded model checking of the compiled code (SAT) plus SMT over the MIR of loop-free functions translated to SMT-LIB2 (z3, cvc5 cross-check); counterexamples replayed natively",
 }
 
 checks = []
@@ -62,7 +62,7 @@ manifest = {
     "engines": [
         {"name": "K", "path": "/verif/kani", "serves_properties": [p for p in ALL if p in PROPS and PROPS[p]["engine"] in ("kani", "mixed")],
          "kind_free_text": "Kani 0.68 / CBMC 6.11 bounded model checking of the real crates via out-of-tree harness crates (path deps on /repo), dependency models patched in for crossbeam-channel and slab"},
-        {"name": "M", "path": "/verif/mir2smt", "serves_properties": [p for p in ALL if p in PROPS and PROPS[p]["engine"] in ("mir", "mixed")],
+        {"name": "M", "path": "/verif/mir2smt", "serves_properties": [p for p in ALL if p in PROPS and (PROPS[p]["engine"] in ("mir", "mixed") or p == "C19")],
          "kind_free_text": "MIR -> SMT-LIB2 translator (python) over a fresh optimised-MIR dump of /repo, decided by z3 4.8.12 with cvc5 1.0 cross-check"},
     ],
     "checks": checks,
